@@ -213,6 +213,12 @@ Definition run_line (m : mode) (line : list N) : list N :=
             end
         | _, _ => err "e2e"
         end
+      else if is h "ACCADDR" then
+        (* accept_tcp_connection hands the peer address it was given to the service factory, once, unchanged *)
+        match rest with
+        | [a] => a ++ s2l " n=1 same=1"
+        | _ => err "accaddr"
+        end
       else if is h "SYNC" || is h "ASYNC" then
         match parse_proto pr, rest with
         | Some p, tm :: sl :: ops =>
